@@ -110,3 +110,7 @@ string mapseq (string ops) {
   foreach (k, v in gm) n++;
   return res + ":" + sizeof (gm) + "/" + n;
 }
+int keep_key_lt (int k, int v, int kept) { return k < kept; }
+int ident2 (int k, int v) { return v; }
+int sz_filter_mapping (int n, int kept) { return sizeof (filter_mapping (mk (0, n), "keep_key_lt", this_object (), kept)); }
+int sz_map_mapping (int n) { return sizeof (map_mapping (mk (0, n), "ident2", this_object ())); }
